@@ -26,6 +26,10 @@ type H struct {
 	Async  bool   `json:"async,omitempty"`
 	Seq    bool   `json:"seq,omitempty"`
 	Filter string `json:"filter,omitempty"` // "", all, none, even, odd
+	// Arms > 0 (Once handlers, sequential histories only): while it runs the
+	// handler subscribes a new registration of handler Arms-1 - a one-shot
+	// handler arming its successor from inside the publish that fires it.
+	Arms int `json:"arms,omitempty"`
 }
 
 // Step of a sequential history.
@@ -67,9 +71,23 @@ func filterOpt[T any](f string, id func(T) int) []eventbus.SubscribeOption {
 }
 
 type calls struct {
+	armErr error
 	mu sync.Mutex
 	n  []int   // per handler
 	ev [][]int // per handler: event ids seen
+}
+
+// armed runs the arming callback after recording the call.
+type armed struct {
+	*calls
+	arm func()
+}
+
+func (a *armed) hit(h, id int) {
+	a.calls.hit(h, id)
+	if a.arm != nil {
+		a.arm()
+	}
 }
 
 func (c *calls) hit(h, id int) {
@@ -79,7 +97,11 @@ func (c *calls) hit(h, id int) {
 	c.mu.Unlock()
 }
 
-func subscribe(bus *eventbus.EventBus, src *busmodel.OptSource, h H, idx int, c *calls) error {
+func subscribe(bus *eventbus.EventBus, src *busmodel.OptSource, h H, idx int, c0 *calls, arm ...func()) error {
+	c := &armed{calls: c0}
+	if len(arm) > 0 {
+		c.arm = arm[0]
+	}
 	var opts []eventbus.SubscribeOption
 	if h.Once {
 		opts = append(opts, src.Once())
@@ -165,11 +187,28 @@ func RunSeq(c *SeqCase) *vkit.Outcome {
 	regs := map[int][]*mreg{} // type -> registrations in order
 	want := make([][]int, len(c.Handlers))
 	sawIneligible := map[int]bool{} // once handler h skipped (filter/cancelled) while subscribed
+	// armFor: what handler hi does while it runs, besides recording the call
+	var armFor func(hi int) func()
+	armFor = func(hi int) func() {
+		h := c.Handlers[hi]
+		if !h.Once || h.Arms <= 0 || h.Arms > len(c.Handlers) {
+			return nil
+		}
+		a := h.Arms - 1
+		return func() {
+			if err := subscribe(bus, src, c.Handlers[a], a, cl, armFor(a)); err != nil {
+				cl.mu.Lock()
+				cl.armErr = err
+				cl.mu.Unlock()
+			}
+		}
+	}
+	armedAny := false
 	for si, s := range c.Steps {
 		switch s.K {
 		case "sub":
 			h := c.Handlers[s.H]
-			if err := subscribe(bus, src, h, s.H, cl); err != nil {
+			if err := subscribe(bus, src, h, s.H, cl, armFor(s.H)); err != nil {
 				o.Failf("", "step %d: subscribe: %v", si, err)
 				return o
 			}
@@ -178,6 +217,7 @@ func RunSeq(c *SeqCase) *vkit.Outcome {
 			publish(bus, s.T, s.ID, s.Cancelled, s.UseCtx)
 			bus.Wait()
 			var keep []*mreg
+			var newRegs []int // handlers armed by Once handlers fired in this publish
 			for _, r := range regs[s.T] {
 				h := c.Handlers[r.h]
 				if s.Cancelled || !accepts(h.Filter, s.ID) {
@@ -192,11 +232,19 @@ func RunSeq(c *SeqCase) *vkit.Outcome {
 					if sawIneligible[r.h] {
 						o.Nontrivial = true
 					}
+					if h.Arms > 0 && h.Arms <= len(c.Handlers) {
+						newRegs = append(newRegs, h.Arms-1)
+					}
 					continue // consumed
 				}
 				keep = append(keep, r)
 			}
 			regs[s.T] = keep
+			// registrations made from inside this publish do not receive it
+			for _, a := range newRegs {
+				regs[c.Handlers[a].T] = append(regs[c.Handlers[a].T], &mreg{h: a})
+				armedAny = true
+			}
 		}
 		// after every step: calls and counts agree with the model
 		for hi := range c.Handlers {
@@ -230,6 +278,12 @@ func RunSeq(c *SeqCase) *vkit.Outcome {
 	}
 	if o.Nontrivial {
 		o.Class("ineligible_publish_before_eligible_one")
+	}
+	if armedAny {
+		o.Class("once_handler_subscribed_its_successor_while_running")
+	}
+	if cl.armErr != nil {
+		o.Failf("", "Subscribe from inside a Once handler failed: %v", cl.armErr)
 	}
 	return o
 }
